@@ -435,6 +435,24 @@ func Acc(p interface{}, kind int, site string) {
 	s.access(v.Pointer(), p, "field@"+site, kind == Write, site)
 }
 
+// AccObj records an access to the object behind a package-level variable of a foreign type
+// (p is the pointer / interface held by the variable, or its address for value-typed variables).
+func AccObj(p interface{}, kind int, site string) {
+	s := S
+	if s == nil || s.cur == nil {
+		return
+	}
+	v := reflect.ValueOf(p)
+	for v.Kind() == reflect.Interface && !v.IsNil() {
+		v = v.Elem()
+	}
+	if v.Kind() != reflect.Ptr || v.IsNil() {
+		return
+	}
+	s.yield(site)
+	s.access(v.Pointer(), p, "object@"+site, kind == Write, site)
+}
+
 // AccStruct records an access to every leaf field of the struct p points to
 // (whole-struct copy or assignment through a pointer: *p = v, v := *p).
 func AccStruct(p interface{}, kind int, site string) {
